@@ -20,10 +20,13 @@ def exposed(r):
     return r["al"] if r["al"] != "none" else r["n"]
 
 
-def ref_text(prog, ref):
+def ref_text(prog, ref, qualify=None):
     c = ref["c"]
     if ref["r"] == 0:
         return c
+    if ref["r"] == 9:
+        # a qualifier that names nothing in scope is taken for a table name: textual qualification qualifies it like one
+        return (qualify + "." if qualify else "") + "zz." + c
     return exposed(prog["rels"][ref["r"] - 1]) + "." + c
 
 
@@ -61,7 +64,7 @@ def render(prog, form1="plain", form2="arith", as_kw=True, qualify=None, join="j
             fr.append(" %s %s on 1 = 1" % (join, t))
     its = []
     for it in prog["items"]:
-        refs = [ref_text(prog, x) for x in it["refs"]]
+        refs = [ref_text(prog, x, qualify) for x in it["refs"]]
         e = expr(form1 if len(refs) <= 1 else form2, refs)
         if len(refs) == 1 and it["al"] == "none":
             e = refs[0]          # an un-aliased single reference keeps its own name only when written plainly
